@@ -2,6 +2,7 @@
 step budget (sys.settrace line counter, never a wall clock)."""
 import builtins
 import sys
+import warnings
 
 
 class StepBudget(BaseException):
@@ -11,7 +12,9 @@ class StepBudget(BaseException):
 def compiles(src, name="<emitted>"):
     """None if CPython accepts the module, else the error text."""
     try:
-        compile(src, name, "exec", dont_inherit=True)
+        with warnings.catch_warnings():
+            warnings.simplefilter("ignore")
+            compile(src, name, "exec", dont_inherit=True)
     except (SyntaxError, ValueError) as e:  # ValueError: source contains NUL
         return "%s: %s" % (type(e).__name__, e)
     return None
@@ -25,7 +28,9 @@ def run_module(src, max_lines):
         out.append(" ".join(str(a) for a in args))
 
     try:
-        code = compile(src, "<emitted>", "exec", dont_inherit=True)
+        with warnings.catch_warnings():
+            warnings.simplefilter("ignore")
+            code = compile(src, "<emitted>", "exec", dont_inherit=True)
     except (SyntaxError, ValueError) as e:
         return {"out": [], "exc": None, "budget": False, "compile_error": "%s: %s" % (type(e).__name__, e)}
     g = {"__name__": "__main__", "__builtins__": dict(vars(builtins), print=_print)}
